@@ -567,7 +567,7 @@ def run(ctx):
     ctx.extra['functions_checked'] = len(fns)
 
     # 5. nothing found by the oracle but something does not check
-    if not ctx.violations and not ctx.known_printed:
+    if not ctx.violations:   # a printed KNOWN-FINDING must not hide a broken proof / model / correspondence
         if broken or not built:
             names = sorted(broken) or [o[0] for o in ctx.obligations if not o[1]]
             if quick and broken:        # denser search on the implementation before giving up
